@@ -59,7 +59,10 @@ P = {
          ' Bounded stand-in for the rest (lookup family, right/anti joins, compound keys, cache, agreement with the merge joins): ' 'Hash joins vs the relational reference and vs their sort-merge twins, cache on/off, two passes, streamed-side order; lookup family vs a reference dict incl. strict.',
          TB + ' The lookup dictionaries are ASSUMED to satisfy the contract of lookup()/lookupone() (key -> rows in table order / first row): not discharged, bounded-checked.', TECH_D),
  'C08': B('complement/intersection/diff/record*/hash* vs collections.Counter arithmetic for all pairs of small rectangular tables; partition law.'),
- 'C09': B('Grouping/aggregation operators vs a dictionary-based reference grouping (ascending key order, input order inside groups, conservation of counts and sums) x spec forms x buffersize/presorted.'),
+ 'C09': (True, 'exploration',
+         'Grouping/aggregation operators vs a dictionary-based reference grouping (ascending key order, input order inside groups, conservation of counts and sums) x spec forms x buffersize/presorted.'
+         ' Proved sub-claim (does not decide the conservation clauses on its own): ' "Group-level half proved for all tables: the keyed drivers itersimpleaggregate (single key) and iterfold emit exactly one row per group delivered by rowgroupby, carrying the unwrapped key and the aggregation / reduce applied to exactly the values of that group's rows in order (itertools.groupby through its contract T2: consecutive non-empty runs); header once. That the sorted input is split into one group per distinct key in ascending order (T2 + the sort), the multi-field form, mergeduplicates, merge and the counting functions are NOT proved.",
+         BNOTE, TECH_D),
  'C10': (True, 'proof',
          'iterduplicates and iterunique (carried-state loops) are proved with the hybrid rule: an inductive invariant pins previous / previous_yielded / prev_comp_ne as functions of the position and the rows emitted per iteration are proved to be exactly: duplicates emits row k (and once its predecessor) iff their keys are ==, unique emits a row iff its key differs from both neighbours; with keys contiguous (sorted) this is the partition by key multiplicity, in order.'
          ' Bounded stand-in for the rest: ' 'duplicates/unique/distinct/conflicts/isunique vs key-multiplicity reference for all small rectangular tables x key forms incl. header-only, zero-field.',
